@@ -71,6 +71,13 @@ int main(int argc, char** argv) {
                     int pc = pos.getPiece(ml[i].from());
                     if ((pc == Piece::WKING || pc == Piece::BKING) && std::abs(ml[i].to().asInt() - ml[i].from().asInt()) == 2) { m = ml[i]; break; }
                 }
+                // pieces capturing rooks / minor pieces at home (goals where a castling right survives although rooks were lost)
+                if (pos.nPieces() > minMen && rnd.nextInt(3) == 0)
+                    for (int i = 0; i < ml.size; i++) {
+                        int pc = pos.getPiece(ml[i].from()), victim = pos.getPiece(ml[i].to());
+                        bool pawn = pc == Piece::WPAWN || pc == Piece::BPAWN;
+                        if (!pawn && (victim == Piece::WROOK || victim == Piece::BROOK)) { m = ml[i]; break; }
+                    }
                 if (pos.getEpSquare().isValid() && rnd.nextInt(2) == 0 && pos.nPieces() > minMen)
                     for (int i = 0; i < ml.size; i++) {
                         int pc = pos.getPiece(ml[i].from());
